@@ -23,6 +23,9 @@ pub enum Kind {
     SetPosSame,
     TickB,
     IncB,
+    /// dec(1) and a burst of 15 of them: backwards moves obey the same token bucket
+    Dec,
+    DecBurst,
     /// MultiProgress only: two bars are inserted at the top and dropped again, lower one first (the
     /// draws this forces are not ordinary requests and are not counted), then an ordinary tick of bar a
     ChurnTick,
@@ -153,7 +156,7 @@ impl C05 {
             clock::advance_ns(ev.gap_ns);
             let reps = match ev.kind {
                 Kind::Burst => 25,
-                Kind::IncBurst => 15,
+                Kind::IncBurst | Kind::DecBurst => 15,
                 _ => 1,
             };
             for _ in 0..reps {
@@ -177,6 +180,7 @@ impl C05 {
                 let r = catch(|| match ev.kind {
                     Kind::Tick | Kind::Burst | Kind::ChurnTick => a.tick(),
                     Kind::Inc | Kind::IncBurst => a.inc(1),
+                    Kind::Dec | Kind::DecBurst => a.dec(1),
                     Kind::Msg => a.set_message(format!("m{}", msg + 1)),
                     Kind::SetPos => a.set_position(pa + 1),
                     Kind::SetPosSame => a.set_position(pa),
@@ -186,11 +190,12 @@ impl C05 {
                 if let Err(p) = r {
                     return Err(p);
                 }
-                if matches!(ev.kind, Kind::Inc | Kind::IncBurst) && reach.times.lock().unwrap().len() > reach0 {
+                if matches!(ev.kind, Kind::Inc | Kind::IncBurst | Kind::Dec | Kind::DecBurst) && reach.times.lock().unwrap().len() > reach0 {
                     inc_reach.push(t);
                 }
                 match ev.kind {
-                    Kind::Inc | Kind::IncBurst | Kind::SetPos => pa += 1,
+                    Kind::Inc | Kind::IncBurst | Kind::SetPos => pa = pa.wrapping_add(1),
+                    Kind::Dec | Kind::DecBurst => pa = pa.wrapping_sub(1),
                     Kind::IncB => pb_ += 1,
                     Kind::Msg => msg += 1,
                     _ => {}
@@ -233,7 +238,7 @@ impl C05 {
             // ticks reach the bar unconditionally; judge the requests that reached it through inc
             let inc_reach: Vec<u64> = run.inc_reach.clone();
             if let Some((i, j)) = window_law(&inc_reach, 10, 1, 1_000_000) {
-                return Err(("position bucket: more than 10 + T/1ms + 1 inc-driven redraw requests in a window".into(), format!("{} requests within {} ns", j - i + 1, inc_reach[j] - inc_reach[i])));
+                return Err(("position bucket: more than 10 + T/1ms + 1 inc/dec-driven redraw requests in a window".into(), format!("{} requests within {} ns", j - i + 1, inc_reach[j] - inc_reach[i])));
             }
         }
         // (b) staleness, (d) content
@@ -248,11 +253,11 @@ impl C05 {
             }
             if let Some(lf) = last_frame_t {
                 let need = match kind {
-                    Kind::Inc | Kind::IncBurst | Kind::IncB | Kind::SetPos | Kind::SetPosSame => i_ns + 1_000_000,
+                    Kind::Inc | Kind::IncBurst | Kind::IncB | Kind::SetPos | Kind::SetPosSame | Kind::Dec | Kind::DecBurst => i_ns + 1_000_000,
                     _ => i_ns,
                 };
                 if t - lf >= need && !painted {
-                    let class = if matches!(kind, Kind::Inc | Kind::IncBurst | Kind::IncB | Kind::SetPos | Kind::SetPosSame) { "staleness: an inc arriving more than one refresh interval + 1 ms after the last frame is not painted" } else { "staleness: a redraw request arriving at least one refresh interval after the last frame is not painted" };
+                    let class = if matches!(kind, Kind::Inc | Kind::IncBurst | Kind::IncB | Kind::SetPos | Kind::SetPosSame | Kind::Dec | Kind::DecBurst) { "staleness: an inc arriving more than one refresh interval + 1 ms after the last frame is not painted" } else { "staleness: a redraw request arriving at least one refresh interval after the last frame is not painted" };
                     return Err((class.into(), format!("request {:?} at {} ns, last frame at {} ns, interval {} ns", kind, t, lf, i_ns)));
                 }
             }
@@ -352,7 +357,7 @@ fn configs(tier: Tier) -> Vec<(C05, usize)> {
                 v.push((C05 { r, target: Target::Single, kinds: vec![Kind::Tick, Kind::Burst], gaps: draw_gaps(r), name: "draw-limiter" }, d));
             }
             for &r in &[20u8, 255] {
-                v.push((C05 { r, target: Target::Single, kinds: vec![Kind::Inc, Kind::IncBurst], gaps: pos_gaps(r), name: "position-bucket" }, 3));
+                v.push((C05 { r, target: Target::Single, kinds: vec![Kind::Inc, Kind::IncBurst, Kind::Dec, Kind::DecBurst], gaps: pos_gaps(r), name: "position-bucket" }, 3));
                 v.push((C05 { r, target: Target::Multi, kinds: vec![Kind::Tick, Kind::Burst, Kind::TickB, Kind::IncB, Kind::ChurnTick], gaps: vec![0, 1, interval_ns(r) - 1, interval_ns(r), 20 * interval_ns(r), 21 * interval_ns(r) + 1], name: "multi" }, 3));
                 v.push((C05 { r, target: Target::Single, kinds: vec![Kind::Tick, Kind::Inc, Kind::Burst, Kind::Msg, Kind::SetPos, Kind::SetPosSame], gaps: vec![0, 1_000_000, interval_ns(r) - 1, interval_ns(r) + 1_000_000, 21 * interval_ns(r) + 1], name: "mixed" }, 3));
             }
@@ -363,7 +368,7 @@ fn configs(tier: Tier) -> Vec<(C05, usize)> {
                 v.push((C05 { r, target: Target::Single, kinds: vec![Kind::Tick, Kind::Burst], gaps: draw_gaps(r), name: "draw-limiter" }, d));
             }
             for &r in few {
-                v.push((C05 { r, target: Target::Single, kinds: vec![Kind::Inc, Kind::IncBurst], gaps: pos_gaps(r), name: "position-bucket" }, 4));
+                v.push((C05 { r, target: Target::Single, kinds: vec![Kind::Inc, Kind::IncBurst, Kind::Dec, Kind::DecBurst], gaps: pos_gaps(r), name: "position-bucket" }, 4));
                 v.push((C05 { r, target: Target::Multi, kinds: vec![Kind::Tick, Kind::Burst, Kind::TickB, Kind::IncB, Kind::ChurnTick], gaps: vec![0, 1, interval_ns(r) - 1, interval_ns(r), 20 * interval_ns(r), 21 * interval_ns(r) + 1], name: "multi" }, 4));
                 v.push((C05 { r, target: Target::Single, kinds: vec![Kind::Tick, Kind::Inc, Kind::Burst, Kind::Msg, Kind::SetPos, Kind::SetPosSame], gaps: vec![0, 1_000_000, interval_ns(r) - 1, interval_ns(r) + 1_000_000, 21 * interval_ns(r) + 1], name: "mixed" }, 4));
             }
